@@ -34,8 +34,8 @@ Two parts, both regenerated from /repo on every run (fail closed):
                     ADialect        self.default_dialect (a user class: known finding local-class-in-lazy-stub)
                     AConstClass     an attribute of a module imported by the generator module (pathlib.PurePath)
                     ABuiltinNumber  spec.origin_type under the guard `spec.origin_type in (int, float)`
-                    ATypeArgs       map(type_name, <type arguments of the annotation>) (GenericSerializableType:
-                                    known finding generic-serializable-local-type-arg)
+                    ATypeArgs       map(type_name, <type arguments of the annotation>) (none left since the
+                                    GenericSerializableType fix)
                     AOther          anything else  (a schema type pasted without going through the identifier)
 
 The Coq side (theories/K44Proofs.v, props/C17_typeref.v) proves over this table that no schema type is pasted
